@@ -57,6 +57,18 @@ pub struct WindowCase {
 
 pub fn check_window(c: &WindowCase, st: &mut Stats) -> CheckResult {
     ensure!(c.n >= 2, "bad case: n < 2");
+    if c.n > 1 << 20 {
+        // very long windows (beyond u32): only the first frames are looked at; the phase step is 1/(n-1)
+        st.nt(true);
+        st.class("window longer than 2^32 frames");
+        let first: Vec<f64> = if c.hann { Window::<f64, Hann>::new(c.n).take(6).collect() } else { Window::<f64, Rectangle>::new(c.n).take(6).collect() };
+        for (i, v) in first.iter().enumerate() {
+            let p = i as f64 / (c.n as f64 - 1.0);
+            let e = if c.hann { hann_ref(p) } else { 1.0 };
+            ensure!((v - e).abs() <= 1e-9, "window({}) value {} = {}, W({}/{}) = {}", c.n, i, v, i, c.n - 1, e);
+        }
+        return Ok(());
+    }
     st.nt(c.n >= 3 && c.hann);
     let tol = 1e-9 * c.n as f64;
     let vals: Vec<f64> = if c.hann { Window::<f64, Hann>::new(c.n).take(c.n).collect() } else { Window::<f64, Rectangle>::new(c.n).take(c.n).collect() };
@@ -253,6 +265,17 @@ fn chunks_typed<F: WF, W: WindowFn<f64, Output = f64> + Clone>(c: &ChunkCase, ha
         let w: Windower<F, W> = Windower::new(&frames[..], c.bin, c.hop);
         first_frame_ok(w.skip(j).next(), j, "skip(k).next()")?;
     }
+    // bin, hop and frames are public fields: a windower built with other values and then assigned the case's values
+    // behaves like one constructed with them
+    {
+        let mut w: Windower<F, W> = Windower::new(&frames[..c.l.min(1)], c.bin + 1, c.hop.saturating_add(1));
+        w.bin = c.bin;
+        w.hop = c.hop;
+        w.frames = &frames[..];
+        first_frame_ok(w.clone().next(), 0, "after assigning the public fields, next()")?;
+        let n = w.take(expected + 3).count();
+        ensure!(n == expected, "a windower whose public fields were assigned (L = {}, bin = {}, hop = {}) yields {} chunks, expected {}", c.l, c.bin, c.hop, n, expected);
+    }
     // a clone taken after j chunks continues with the same schedule as the original
     for j in [0usize, 1, expected / 2, expected] {
         let mut w: Windower<F, W> = Windower::new(&frames[..], c.bin, c.hop);
@@ -295,13 +318,13 @@ pub fn check_chunks(c: &ChunkCase, st: &mut Stats) -> CheckResult {
 
 pub fn run(ctx: &mut Ctx) {
     ctx.set_rule(
-        "window function: phases k/2^m for every m <= 10 exhaustively plus random phases in [0,1], f64 and f32 phase types; Window::new(n) for n in 2..=64 and {100, 1000, 4096}; \
+        "window function: phases k/2^m for every m <= 10 exhaustively plus random phases in [0,1], f64 and f32 phase types; Window::new(n) for n in 2..=64 and {100, 1000, 4096, 2^32+3, 2^33+1, 2^40}; \
          windower: every (L, bin, hop) with L in 0..=40, bin in 2..=12, hop in 1..=14 x {Hann, Rectangle} x {f64, [f32;2], i16, [u8;2]} plus random larger triples; non-trivial: phase not 0/0.5/1; \
          Hann window with n >= 3; (L - bin) not a multiple of hop, L == bin, hop >= bin, or Hann with bin >= 3",
     );
     ctx.assume("reference for the Hann shape is sin^2(pi p) (an identity of 0.5*(1-cos 2 pi p) evaluated through a different libm function); tolerances 1e-12 (f64), 2e-7 (f32), 1e-9*n for the n-point window, integer frames: unchanged under a window value of exactly 1 (Rectangle), otherwise within the truncated products of the signed amplitude with w -+ 3e-7");
     ctx.assume("size_hint() is taken before EVERY next(): lower <= remaining <= upper (the Iterator contract; nothing stronger is demanded)");
-    for c in ["L < bin", "L == bin", "hop >= bin", "(L - bin) not a multiple of hop", "hop near usize::MAX"] {
+    for c in ["L < bin", "L == bin", "hop >= bin", "(L - bin) not a multiple of hop", "hop near usize::MAX", "window longer than 2^32 frames"] {
         ctx.require_class(c);
     }
     let mut cases = Vec::new();
@@ -313,7 +336,7 @@ pub fn run(ctx: &mut Ctx) {
     ctx.enumerate("hann/dyadic-phases", true, cases.into_iter(), check_phase);
     ctx.prop("hann/random-phases", ctx.pick(100_000, 1_000_000), (0.0f64..=1.0).prop_map(|p| PhaseCase { phase: p.to_bits() }), check_phase);
     let mut cases = Vec::new();
-    for n in (2..=64).chain([100, 1000, 4096]) {
+    for n in (2..=64).chain([100, 1000, 4096, (1usize << 32) + 3, (1usize << 33) + 1, 1usize << 40]) {
         cases.push(WindowCase { n, hann: true });
         cases.push(WindowCase { n, hann: false });
     }
